@@ -131,6 +131,10 @@ class LibMixin:
             if m == 'end' or m == 'cend': return '%s.size' % o
             if m in ('rbegin', 'crbegin'): return '%s.size' % o      # reverse iterator = index one past the element
             if m in ('rend', 'crend'): return '((size_t)0)'
+            if m == 'splice' and len(args) == 3:
+                self.rules['list::splice(pos, same, it)'] += 1
+                if self.expr(args[1]) != o: raise Unsupported('splice between different lists')
+                return self.cont_call(t, 'splice1', o, [self.expr(args[0], rvalue=True), self.expr(args[2], rvalue=True)])
             if m == 'erase' and len(args) == 2:
                 self.rules['vector::erase(first,last)'] += 1
                 return self.cont_call(t, 'erase_range', o, [self.expr(args[0]), self.expr(args[1])])
@@ -214,6 +218,8 @@ class LibMixin:
 
     def container_type(self, itexpr):
         c = self.skip(itexpr)
+        if c.get('kind') == 'MemberExpr' and c.get('name') in self.u.get('iter_fields', {}):
+            t = self.tyq(c['type']); return t.elem
         if c.get('kind') == 'CXXConstructExpr' and len(c.get('inner', [])) == 1:
             return self.container_type(c['inner'][0])
         if c.get('kind') in ('CallExpr', 'CXXMemberCallExpr'):
@@ -242,7 +248,7 @@ class LibMixin:
         try: return self.tyq(arg['type']).c == t.c
         except Unsupported: return False
 
-    MUTATORS = {'push_back', 'pop_back', 'clear', 'erase_at', 'erase_range', 'insert_at', 'insert', 'erase', 'emplace', 'reverse', 'resize'}
+    MUTATORS = {'push_back', 'pop_back', 'clear', 'erase_at', 'erase_range', 'insert_at', 'splice1', 'insert', 'erase', 'emplace', 'reverse', 'resize'}
     def cont_call(self, t, op, o, args=()):
         """call of a container stub on lvalue text `o`.  CBMC 6.11 mis-reads through pointers to an
         element nested in a struct array reached via a pointer parameter (DESIGN §2 item 8), so for
@@ -354,6 +360,12 @@ class LibMixin:
 
     def iter_container(self, itexpr):
         c = self.skip(itexpr)
+        if c.get('kind') == 'MemberExpr' and c.get('name') in self.u.get('iter_fields', {}):
+            # an iterator stored in a field: its container is reached from the same object (unit description)
+            b = self.expr(c['inner'][0]); path = self.u['iter_fields'][c['name']]
+            if c.get('isArrow'): base = b[2:-1] if (b.startswith('(&') and b.endswith(')')) else '(*%s)' % b
+            else: base = b
+            return '(*%s.%s)' % (base, path) if path.endswith('->order') is False else '%s.%s' % (base, path)
         if c.get('kind') == 'CXXConstructExpr' and len(c.get('inner', [])) == 1:
             return self.iter_container(c['inner'][0])     # copy of an iterator
         if c.get('kind') == 'DeclRefExpr':
